@@ -177,6 +177,19 @@ SeriesLevelDrop(s, k) == IF ~DropOK(s.index, k) THEN Err("init_nonunique") ELSE 
 SeriesRehierarch(s, dm) == IF ~ValidDepthMap(s.index, dm) THEN Err("runtime")
                            ELSE MkSeries(RehierLabels(s.index, dm), Take(s.vals, RehierOrder(s.index, dm)), s.dt, s.name)
 (* Frames: axis 0 = index, 1 = columns; the other axis and every cell stay where their label goes *)
+(* label_widths_at_depth(d): the tree read at depth d (0-based) - one (label, number of leaves below it) pair per node, in tree order;   *)
+(* a node is a maximal run of rows that agree on levels 0..d                                                                            *)
+PrefixTo(l, d) == SubSeq(l[2], 1, d + 1)
+RunStarts(labs, d) == SelectSeq([i \in 1..Len(labs) |-> i], LAMBDA i : i = 1 \/ PrefixTo(labs[i], d) # PrefixTo(labs[i - 1], d))
+LabelWidths(labs, d) ==
+  LET st == RunStarts(labs, d) IN
+  [k \in 1..Len(st) |-> <<"t", <<labs[st[k]][2][d + 1], <<"i", (IF k = Len(st) THEN Len(labs) + 1 ELSE st[k + 1]) - st[k]>>>>>>]
+(* iter_label(depths): per row the label at that depth, or the tuple of the labels at those depths *)
+IterLabel(labs, ds) == [i \in 1..Len(labs) |-> IF Len(ds) = 1 THEN labs[i][2][ds[1] + 1] ELSE <<"t", [k \in 1..Len(ds) |-> labs[i][2][ds[k] + 1]]>>]
+ArrayOf(vals) == [k |-> "array", dt |-> <<"any", 0>>, vals |-> vals]
+SeriesLabelWidths(s, d) == IF Len(s.index) = 0 \/ d < 0 \/ d >= HDepth(s.index) THEN Unspecified ELSE ArrayOf(LabelWidths(s.index, d))
+SeriesIterLabel(s, ds) == IF Len(s.index) = 0 \/ Len(ds) = 0 \/ (\E k \in 1..Len(ds) : ds[k] < 0 \/ ds[k] >= HDepth(s.index)) THEN Unspecified
+                          ELSE ArrayOf(IterLabel(s.index, ds))
 (* relabel_flat: the hierarchical axis becomes a one-level axis whose labels are the tuples; nothing else changes *)
 SeriesRelabelFlat(s) == MkSeries(s.index, s.vals, s.dt, s.name)
 FrameRelabelFlat(f, axis) == MkFrame(f.index, f.columns, f.cols, f.name)
